@@ -1281,8 +1281,19 @@ func (c *child) firstPanicLine() string {
 
 func (c *child) kill() {
 	c.in.Close()
-	c.cmd.Process.Kill()
-	c.cmd.Wait()
+	if os.Getenv("GOCOVERDIR") != "" { // bin/coveraudit: let the worker leave by itself so that its counters are written
+		done := make(chan struct{})
+		go func() { c.cmd.Wait(); close(done) }()
+		select {
+		case <-done:
+		case <-time.After(3 * time.Second):
+			c.cmd.Process.Kill()
+			<-done
+		}
+	} else {
+		c.cmd.Process.Kill()
+		c.cmd.Wait()
+	}
 	os.Remove(c.errF.Name())
 	c.errF.Close()
 }
